@@ -66,6 +66,7 @@ type slot struct {
 }
 
 type runner struct {
+	zero *slot // the request of this scenario that carries message id 0 (at most one in flight process-wide)
 	i     int
 	sc    scenario
 	t     *trace.T
@@ -75,6 +76,7 @@ type runner struct {
 var (
 	byTag   sync.Map // string(ApplicationData) -> *slot
 	byMsg   sync.Map // message id -> *slot
+	zeroMu  sync.Mutex // serialises the scenarios whose first request carries message id 0
 	byPlace sync.Map // xid/bid/kind -> *slot (fallback attribution of mis-addressed responses)
 	orphans int64
 	sess    *tc.Session
@@ -357,7 +359,13 @@ func main() {
 			}
 			s.data = []byte(fmt.Sprintf(`{"s":%d,"p":%d,"pad":"%s"}`, i, p, pad))
 			byTag.Store(string(s.data), s)
-			byMsg.Store(s.msgID, s)
+			if p == 0 && i%16 == 0 {
+				// the coordinator's message counter starts at (or wraps to) 0: one request at a time carries that id
+				s.msgID = 0
+				r.zero = s
+			} else {
+				byMsg.Store(s.msgID, s)
+			}
 			byPlace.Store(fmt.Sprintf("%s/%d/%s", s.xid, s.bid, q.Kind), s)
 			r.slots = append(r.slots, s)
 		}
@@ -366,6 +374,11 @@ func main() {
 		go func(r *runner) {
 			defer wg.Done()
 			defer func() { <-sem }()
+			if r.zero != nil {
+				zeroMu.Lock()
+				defer zeroMu.Unlock()
+				byMsg.Store(int32(0), r.zero)
+			}
 			r.run(o.Seed)
 		}(r)
 	}
